@@ -189,7 +189,9 @@ def run(tier: str, driver_ok: bool) -> Result:
         n = r.randbytes(r.choice([0, 1, 64, 128, 129, 256]))
         pub = KSKM_PublicKey_RSA(bits=len(n) * 8, exponent=e, n=n, algorithm=AlgorithmDNSSEC.RSASHA256)
         enc = run_impl(lambda: pub.encode_public_key(), lambda b: b.decode())
-        add("rsa_encode", {"op": "rsa_encode", "exponent": e, "n": hexs(n)}, enc)
+        # RFC 3110 §2: one length octet for an exponent of 1..255 octets, otherwise 0x00 and a two-octet length
+        want = {"ok": base64.b64encode(KK.rsa_public_key_field(e, n)).decode()} if "ok" in enc else None
+        add("rsa_encode", {"op": "rsa_encode", "exponent": e, "n": hexs(n)}, enc, want)
         if "ok" in enc:
             dec = run_impl(
                 lambda: KSKM_PublicKey_RSA.decode_public_key(enc["ok"].encode(), AlgorithmDNSSEC.RSASHA256),
